@@ -396,3 +396,51 @@ def run_check(pid, tier, seed, only_key=None):
     print('%s %s: %d obligations, %d discharged, %d violation(s), %.1fs'
           % (pid, tier, ob, cov['discharged'], n_new, wall))
     return rc
+
+
+def fired_all(tier='quick'):
+    """tool mode (not a registered check): decide every claimed property from ONE set of driver runs and ONE
+    interpretation of all roots per configuration; -> {pid: [first reports]} for the properties that would
+    report a violation.  Equivalent to running each check separately (same rules, same attribution), but
+    ~20x cheaper; used to evaluate seeded changes."""
+    from . import cli, witness
+    import tempfile
+    import shutil
+    import concurrent.futures
+    from .facts import Facts
+    cfgs = ['A', 'B', 'C', 'D']
+    facts_all, merged_all = cli.gather(cfgs)
+    out = {}
+    wres = None
+    known = load_known()
+    known_keys = {(k['property'], k['key']) for k in known.get('findings', [])}
+    for pid, spec in sorted(PROPS.items()):
+        want = spec[tier]
+        if pid == 'C06':
+            vs, ob, extra = c06_collect({c: f for c, f in facts_all.items() if c in want}, {})
+        else:
+            vs, ob, dis, samples, stats = e2_collect(pid, {c: facts_all[c] for c in want},
+                                                     {c: merged_all[c] for c in want})
+        mine = sorted(w for w, ps in witness.SERVES.items() if pid in ps)
+        if mine:
+            if wres is None:
+                wres, _ = witness.run(cli.REPO)
+            got = {(r['witness'], r['kind']): r['ok'] for r in wres}
+            for w in mine:
+                for kind in ('compile_fail', 'twin'):
+                    if not got.get((w, kind)):
+                        vs.append({'rule': 'WITNESS', 'status': 'refuted', 'root': 'witness/lib.rs', 'chain': [],
+                                   'primitive': '%s:%s' % (w, kind), 'what': 'witness failed', 'span': None,
+                                   'config': 'witness', 'key': 'WITNESS|%s|%s' % (w, kind)})
+        vs = [v for v in vs if (pid, v['key']) not in known_keys]
+        if vs:
+            seen = set()
+            reps = []
+            for v in vs:
+                if v['key'] in seen:
+                    continue
+                seen.add(v['key'])
+                reps.append('[%s/%s] %s :: %s (%s, config %s) %s' % (v['rule'], v['status'], v['root'], '>'.join(v.get('chain', [])),
+                                                                  v['primitive'], v['config'], (v.get('what') or '')[:160]))
+            out[pid] = reps[:4]
+    return out
